@@ -25,7 +25,7 @@ Kron1(a, b) == [x \in 1..(Len(a) * Len(b)) |-> GMul(a[((x - 1) \div Len(b)) + 1]
 ReshapeABtoC(M, dA, dB, dC) == [x \in 1..(dA * dB) |-> [c \in 1..dC |-> M[((x - 1) \div dB) + 1][((x - 1) % dB) * dC + c]]]
 Configs == {[kind |-> k, dims |-> d, r |-> r, s |-> s] : k \in {"real", "complex"}, d \in {<<3, 3>>, <<3, 4>>, <<4, 4>>, <<4, 5>>}, r \in 2..3, s \in 1..NSeeds}
            \cup {[kind |-> "real", dims |-> <<3, 3>>, r |-> 2, s |-> s] : s \in 1..NDetect}
-           \cup {[kind |-> k, dims |-> d, r |-> 2, s |-> s] : k \in {"tri-real", "tri-complex"}, d \in {<<2, 2, 2>>, <<2, 2, 3>>}, s \in 1..NSeeds}
+           \cup {[kind |-> k, dims |-> d, r |-> 2, s |-> s] : k \in {"tri-real", "tri-complex"}, d \in {<<2, 2, 2>>, <<2, 2, 3>>, <<2, 3, 2>>, <<3, 2, 2>>}, s \in 1..NSeeds}
 Init == /\ cfg \in Configs
         /\ LET cplx == cfg.kind \in {"complex", "tri-complex"} IN
            IF Len(cfg.dims) = 2
